@@ -53,6 +53,7 @@ def _handler_accepts(node: ast.If, key: str) -> set:
 def run(rep: core.Report):
     _r18f(rep)
     _r18h(rep)
+    _r18j(rep)
     from rules import shared_selfalias
 
     shared_selfalias.run(rep, "R18i", ["phonopy/cui/create_force_sets.py", "phonopy/cui/phonopy_script.py", "phonopy/cui/load_helper.py", "phonopy/cui/collect_cell_info.py", "phonopy/file_IO.py", "phonopy/interface/vasp.py"])
@@ -268,6 +269,37 @@ def _r18g(rep):
 
 
 
+def _r18j(rep):
+    """Calculator-dependent defaults are taken for the calculator of the calculation, not for the raw option."""
+    rep.rule("R18j", "calculator-dependent defaults in the command-line front end (default units, displacement distance, default cell file name): the argument of every get_default_*(calculator) call is the resolved calculator -- the Phonopy object's, the collected cell information's, or a local that the phonopy.yaml's entry may overwrite -- never the raw option settings.calculator alone, which is None when the calculator is recorded only in the input yaml file", 8)
+    n = 0
+    for rel in ("phonopy/cui/phonopy_script.py", "phonopy/cui/load.py", "phonopy/cui/show_symmetry.py", "phonopy/cui/create_force_sets.py", "phonopy/cui/load_helper.py"):
+        if not (core.REPO / rel).is_file():
+            continue
+        tree = core.parse(rel)
+        for fn in [x for x in ast.walk(tree) if isinstance(x, ast.FunctionDef)]:
+            asg = {}
+            for st in ast.walk(fn):
+                if isinstance(st, ast.Assign) and len(st.targets) == 1 and isinstance(st.targets[0], ast.Name):
+                    asg.setdefault(st.targets[0].id, []).append(st.value)
+            for c in ast.walk(fn):
+                if not (isinstance(c, ast.Call) and isinstance(c.func, ast.Name) and c.func.id.startswith("get_default_") and c.args):
+                    continue
+                if core.enclosing_function(c) is not fn:
+                    continue
+                a = c.args[0]
+                if isinstance(a, ast.Constant):
+                    continue  # a literal calculator (the VASP fallback file name)
+                vals = asg.get(a.id, [a]) if isinstance(a, ast.Name) else [a]
+                raw = [v for v in vals if isinstance(v, ast.Attribute) and v.attr == "calculator" and "settings" in core.src(v.value)]
+                ok = not raw or len(vals) > len(raw)  # a raw option is fine as the starting value of a local that another source may overwrite
+                n += 1
+                rep.instance("R18j", rel, core.qualname_of(fn), core.norm(core.src(c), 80), ok,
+                             f"'{core.norm(core.src(c), 70)}' takes the default for the raw option '{core.src(raw[0]) if raw else ''}': when the calculator is recorded in the input phonopy.yaml and not repeated on the command line this is the VASP default (e.g. displacement distance 0.01 instead of 0.02 a.u. for QE), so phonopy-load -d and phonopy --qe -d write different files for the same crystal", line=c.lineno)
+    if n < 8:
+        raise AnalysisError(f"R18j: only {n} calls of calculator-dependent default getters found in the command-line front end")
+
+
 def _r18h(rep):
     """PRIMITIVE_AXES / --pa given by the user wins over the primitive matrix stored in a phonopy.yaml input, as it does
     in phonopy.load(primitive_matrix=...): path evaluation of _collect_cells_info."""
@@ -341,6 +373,7 @@ def selftest():
     V = []
     b = lambda name, file, old, new, rule, expect="", **kw: V.append(dict(name=name, kind="break", file=file, old=old, new=new, rule=rule, expect=expect, **kw))
     n = lambda name, file, old, new, **kw: V.append(dict(name=name, kind="neutral", file=file, old=old, new=new, **kw))
+    b("default displacement distance for the raw calculator option", SCRIPT, "get_default_displacement_distance(phonon.calculator)", "get_default_displacement_distance(settings.calculator)", "R18j", "main")
     CFS = "phonopy/cui/create_force_sets.py"
     b("residual forces subtracted through a view of the first set", CFS, "    for i in range(1, len(force_sets)):\n        force_sets[i] -= force_sets[0]\n", "    residual_forces = force_sets[0]\n    for forces in force_sets:\n        forces -= residual_forces\n", "R18i", "_subtract_residual_forces")
     n("residual forces subtracted through a copy of the first set", CFS, "    for i in range(1, len(force_sets)):\n        force_sets[i] -= force_sets[0]\n", "    residual_forces = force_sets[0].copy()\n    for forces in force_sets:\n        forces -= residual_forces\n")
